@@ -1,4 +1,6 @@
 import IndicatorVerif.Proofs.AgreeReal
+import IndicatorVerif.Proofs.ExtremaReal
+import IndicatorVerif.Proofs.RingScan
 import IndicatorVerif.Spec.Indicators
 import IndicatorVerif.Model.Registry
 /-
@@ -18,28 +20,64 @@ variable {α : Type} [Arith α]
 @[simp] theorem rma_start (N p : Nat) (a : PS α) : (rma N p a).start = a.start + (p - 1) := rfl
 @[simp] theorem smma_start (N p : Nat) (a : PS α) : (smma N p a).start = a.start + (p - 1) := rfl
 @[simp] theorem msum_start (p : Nat) (a : PS α) : (msum p a).start = a.start + (p - 1) := rfl
+@[simp] theorem wma_start (p : Nat) (a : PS α) : (wma p a).start = a.start + (p - 1) := rfl
+@[simp] theorem mstd_start (p : Nat) (a : PS α) : (mstd p a).start = a.start + (p - 1) := rfl
+@[simp] theorem mmax_start (p : Nat) (a : PS α) : (mmax p a).start = a.start + (p - 1) := rfl
+@[simp] theorem mmin_start (p : Nat) (a : PS α) : (mmin p a).start = a.start + (p - 1) := rfl
 @[simp] theorem cumul_start (N s : Nat) (i : α) (f : α → Nat → α) : (cumul N s i f).start = s := rfl
 end PS
 
 theorem Nat.max_eq_max' (a b : Nat) : Nat.max a b = max a b := rfl
 
+/-- the moving average selected by a kind code (0 sma, 1 ema, 2/3 smma, 4 wma, else hma) -/
+theorem Sig.Agree.maOf {x : Nat → Nat → ℝ} {e : Sig ℝ} {P : PS ℝ} (N k p : Nat) (hp : 1 ≤ p) (h : Sig.Agree x e P) :
+    Sig.Agree x (Ind.maApply (Ind.maOf k p) e) (Spec.ma N (Spec.maOf k p) P) := by
+  unfold Ind.maOf Spec.maOf
+  split
+  · exact Sig.Agree.sma p hp h
+  · exact Sig.Agree.ema N p _ hp h
+  · exact Sig.Agree.smma N p hp h
+  · exact Sig.Agree.smma N p hp h
+  · exact Sig.Agree.wma p hp h
+  · simp only [Ind.maApply, Spec.ma, Ind.hma, Spec.hma, Ind.mulBy, Ind.sub]
+    have hr := Ind.roundSqrt_pos p hp
+    have hh := Ind.halfRound_pos p hp
+    have hl := Ind.halfRound_le p hp
+    have w1 := Sig.Agree.wma (Ind.halfRound p) hh h
+    have w2 := Sig.Agree.wma p hp h
+    have s1 := Sig.Agree.skip ((p - 1) - (Ind.halfRound p - 1)) w1
+    have m1 := Sig.Agree.map (fun v => v * Ind.two) s1
+    have z := Sig.Agree.zip (fun a b => a - b) m1 w2 (by simp [PS.wma, PS.map]; omega)
+    have w3 := Sig.Agree.wma (Ind.roundSqrt p) hr z
+    refine w3.cast ?_ ?_
+    · simp [PS.wma, PS.map2, PS.map, PS.scale, Spec.halfRound, Ind.halfRound, Spec.roundSqrt, Ind.roundSqrt]; omega
+    · intro i _; rfl
+
 /-- unfold the arithmetic helpers and the indicator bodies, keeping the stateful primitives folded -/
 macro "unfold_light" : tactic => `(tactic|
   simp only [Ind.add, Ind.sub, Ind.mul, Ind.div, Ind.mulBy, Ind.divBy, Ind.incBy, Ind.absS, Ind.pow2, Ind.powInv,
     Ind.sqrtS, Ind.keepPos, Ind.keepNeg, Ind.signS, Ind.round0, Ind.change, Ind.changeRatio,
-    Ind.typicalPrice, Ind.maApply, Ind.maIdle, Ind.bop, Ind.cci, Ind.envelope, Ind.macd, Ind.massIndex, Ind.mls,
+    Ind.typicalPrice, Ind.maApply.eq_1, Ind.maApply.eq_2, Ind.maApply.eq_3, Ind.maApply.eq_4, Ind.maApply.eq_5,
+    Ind.maApply.eq_6, Ind.maIdle, Ind.bop, Ind.cci, Ind.envelope, Ind.macd, Ind.massIndex, Ind.mls,
     Ind.mlsM, Ind.mlsB, Ind.mlr, Ind.tema, Ind.trix, Ind.vwma, Ind.weightedClose, Ind.mfm, Ind.mfv, Ind.ad, Ind.cmf,
     Ind.mfi, Ind.vpt, Ind.vwap, Ind.awesomeOscillator, Ind.chaikinOscillator, Ind.ppo, Ind.qstick, Ind.rsi,
     Ind.accelerationBands, Ind.trueRange, Ind.atr, Ind.atrIdle, Ind.keltnerChannel, Ind.trima, Ind.trimaPeriods,
-    Ind.apo, Ind.dema, Ind.emv, Ind.fi, Ind.tsi,
-    Ind.i0, Ind.i1, Ind.i2, Ind.i3, Ind.maOf, List.getD_cons_zero, List.getD_cons_succ, List.getD_nil])
+    Ind.apo, Ind.dema, Ind.emv, Ind.fi, Ind.tsi, Ind.kdj, Ind.ichimokuCloud, Ind.stochasticOscillator, Ind.williamsR,
+    Ind.donchianChannel, Ind.stochasticRsi, Ind.chandelierExit, Ind.hma, Ind.bollingerBands, Ind.bbUpper, Ind.bbLower,
+    Ind.bollingerBandWidth, Ind.percentB,
+    Ind.i0, Ind.i1, Ind.i2, Ind.i3, List.getD_cons_zero, List.getD_cons_succ, List.getD_nil])
 
 /-- derive `Agree x e ?P` structurally (primitive rules first, so that `sma`, `ema` … stay folded) -/
 syntax "agree_core " term : tactic
 macro_rules
 | `(tactic| agree_core $N) => `(tactic|
   (repeat' (first
+      | apply Sig.Agree.maOf $N
       | apply Sig.Agree.movingSum
+      | apply Sig.Agree.movingMax
+      | apply Sig.Agree.wma
+      | apply Sig.Agree.movingStd
+      | apply Sig.Agree.movingMin
       | apply Sig.Agree.sma
       | apply Sig.Agree.ema $N
       | apply Sig.Agree.rma $N
@@ -55,8 +93,8 @@ macro_rules
 macro "ps_simp" : tactic => `(tactic|
   simp only [PS.over, PS.scale, PS.plus, PS.map, PS.map2, PS.map3, PS.input, PS.from_, PS.prev,
     PS.add_def, PS.sub_def, PS.mul_def, PS.div_def, Nat.zero_add, Nat.add_zero, Nat.max_eq_max', Nat.zero_max,
-    Nat.max_zero, Nat.max_self, Spec.typicalPrice, Spec.mfm, Spec.mfv, Spec.ad, Spec.rsi, Spec.mlsM, Spec.mlsB, Spec.ma,
-    Spec.maOf, Spec.atr, Spec.trueRange, PS.sma, PS.ema_start, PS.rma_start, PS.smma_start, PS.msum_start,
+    Nat.max_zero, Nat.max_self, Spec.typicalPrice, Spec.mfm, Spec.mfv, Spec.ad, Spec.rsi, Spec.mlsM, Spec.mlsB, Spec.ma.eq_1, Spec.ma.eq_2, Spec.ma.eq_3, Spec.ma.eq_4, Spec.ma.eq_5,
+    Spec.atr, Spec.trueRange, PS.sma, PS.ema_start, PS.rma_start, PS.smma_start, PS.msum_start, PS.mmax_start, PS.mmin_start, PS.wma_start, PS.mstd_start, Spec.hma, Spec.bbUpper, Spec.bbLower, Spec.bbMiddle,
     PS.cumul_start])
 
 /-- `Agree x model spec` for a model term whose definitions have been unfolded to primitives -/
@@ -68,8 +106,18 @@ macro_rules
    all_goals (try ps_simp)
    all_goals (first
      | omega
+     | (apply Ind.roundSqrt_pos; omega)
+     | (split <;> omega)
+     | (split <;> simp <;> omega)
+     | (apply Ind.halfRound_pos; omega)
+     | (have := Ind.halfRound_le _ (by assumption); have := Ind.halfRound_pos _ (by assumption); omega)
+     | (have := Ind.halfRound_le _ (by assumption); have := Ind.halfRound_pos _ (by assumption);
+        show Ind.halfRound _ - 1 + _ + (Ind.roundSqrt _ - 1) = max (Ind.halfRound _ - 1) _ + (Ind.roundSqrt _ - 1); omega)
      | (intro i hi; trivial)
      | (intro i hi; rfl)
+     | (intro i hi; congr 3; omega)
+     | (intro i hi; congr 2; omega)
+     | (intro i hi; congr 4; omega)
      | (intro i hi; simp; done)
      | (intro i hi; simp; ring)
      | (intro i hi; simp; field_simp; done)
